@@ -76,7 +76,8 @@ func base(i int) string {
 func name(i int) string { return "d/" + base(i) }
 
 func build(g []kind) [][]byte {
-	l0 := []imgkit.Entry{imgkit.Dir("d"), imgkit.File("x", "outside-target"), imgkit.Dir("root"), imgkit.File("root/x", "outside-target")} // "x", "root/x": what a clamped "../../x", "../../root/x" would hit
+	l0 := []imgkit.Entry{imgkit.Dir("d"), imgkit.File("x", "outside-target"), imgkit.Dir("root"), imgkit.File("root/x", "outside-target"),
+		imgkit.Sym("rootlink-up", "../x"), imgkit.Sym("rootlink-mid", "d/../../x"), imgkit.Sym("rootlink-abs", "/../x")} // "x", "root/x": what a clamped "../../x", "../../root/x" would hit
 	var l1 []imgkit.Entry
 	for i, k := range g {
 		switch k.K {
@@ -277,6 +278,21 @@ func checkGraphOrder(r *ev.Run, g []kind, depths []int, rev bool) {
 		}
 		for _, vi := range order {
 			fsys := cls[vi].FS()
+			// links that sit directly in the image root and climb out of it (every image carries them)
+			if max == depths[len(depths)-1] {
+				for _, rl := range []string{"rootlink-up", "rootlink-mid", "rootlink-abs"} {
+					r.Evals.Add(1)
+					_, serr := fsys.Stat(rl)
+					f, oerr := fsys.Open(rl)
+					if oerr == nil {
+						_, oerr = f.Stat()
+						f.Close()
+					}
+					if serr == nil || oerr == nil {
+						r.Violation("stat-wrong-class", fmt.Sprintf("graph {%s} view %d: the root-level link %s (its target leaves the image root) resolves: Stat err=%v Open err=%v; if clamped to the root it would hit the file x", graphStr(g), vi, rl, serr, oerr), replayT{Graph: g, Max: max})
+					}
+				}
+			}
 			for i := range g {
 				want := resolve(g, i, max, vi)
 				viol := func(op, key, detail string) {
@@ -469,5 +485,5 @@ func main() {
 	}
 	os.RemoveAll(base)
 	r.Set("bound", map[string]any{"entries_completed": completed, "depths": depths})
-	r.Finish(fmt.Sprintf("every kind assignment to n<=%d entries (named d/e0, d/e\\1 (a backslash in the name), d/e2...; file, dir, missing, deleted by layer 1, symlink to the image root itself (/ and ..), outside-root symlink spelled relative (../../x, ../../root/x, y/../../../x, ./../../x) and absolute (/d/../../x) (n<=3 all five, n=4 two of them), symlink whose target runs through another entry (e<j>/child; n<=3, thorough all n), symlink to each entry spelled relative/absolute%s, symlink re-pointed by layer 1 from entry j to j+1 (n<=3; thorough all n)) x MaxSymlinkDepth 0..6 x every entry x {Stat, Open+Read, ReadDir} on all three views (layer-0 view where deleted entries still exist, intermediate view with whiteout nodes, final view) of the real image vs the per-view reference resolver, views queried 0,1,2 and, on a fresh load at depth 6, 2,1,0; each query under a 60 s watchdog; non-trivial = queries whose chain has >=1 hop", maxN, map[bool]string{true: "/with ..", false: ""}[r.Thorough()]), completed >= maxN)
+	r.Finish(fmt.Sprintf("every kind assignment to n<=%d entries (named d/e0, d/e\\1 (a backslash in the name), d/e2...; file, dir, missing, deleted by layer 1, symlink to the image root itself (/ and ..), three links directly in the root that climb out of it (../x, d/../../x, /../x), outside-root symlink spelled relative (../../x, ../../root/x, y/../../../x, ./../../x) and absolute (/d/../../x) (n<=3 all five, n=4 two of them), symlink whose target runs through another entry (e<j>/child; n<=3, thorough all n), symlink to each entry spelled relative/absolute%s, symlink re-pointed by layer 1 from entry j to j+1 (n<=3; thorough all n)) x MaxSymlinkDepth 0..6 x every entry x {Stat, Open+Read, ReadDir} on all three views (layer-0 view where deleted entries still exist, intermediate view with whiteout nodes, final view) of the real image vs the per-view reference resolver, views queried 0,1,2 and, on a fresh load at depth 6, 2,1,0; each query under a 60 s watchdog; non-trivial = queries whose chain has >=1 hop", maxN, map[bool]string{true: "/with ..", false: ""}[r.Thorough()]), completed >= maxN)
 }
